@@ -4,6 +4,7 @@ import (
 	"net"
 	"runtime"
 	"sort"
+	"sync"
 )
 
 // NetSim is implemented by the harness (SimHAProxy + SimDNS).
@@ -170,4 +171,35 @@ func Yield(site string) {
 		return
 	}
 	r.YieldHook(site)
+}
+
+// Mutex replaces sync.Mutex in the files instrumented with yields. Without a
+// cooperative scheduler it is a sync.Mutex. With one (exactly one task runs at
+// a time) Lock spins through the scheduler while the mutex is held, so the
+// scheduler decides who gets it and observes mutual exclusion if the code
+// provides it.
+type Mutex struct {
+	mu   sync.Mutex
+	held bool
+}
+
+func (m *Mutex) Lock() {
+	r := Cur()
+	if r == nil || r.YieldHook == nil {
+		m.mu.Lock()
+		return
+	}
+	for m.held {
+		r.YieldHook("mutex.wait")
+	}
+	m.held = true
+}
+
+func (m *Mutex) Unlock() {
+	r := Cur()
+	if r == nil || r.YieldHook == nil {
+		m.mu.Unlock()
+		return
+	}
+	m.held = false
 }
